@@ -32,7 +32,6 @@ static int ninst;
 
 static void drv_reset(void)
 {
-	alarm(4);   /* a behaviour is a few calls on small data: a longer run is a hang */
 	int i;
 	for (i = 0; i < ninst; i++) {
 		if (mt[i]) mt[i]->_vptr->unref(mt[i]);
